@@ -1,6 +1,6 @@
-//! Property C13: correspondence and oracle (stub: nothing built yet).
+//! Property C13 (stub with a probe)
 use crate::report::Report;
 
 pub fn run(report: &mut Report, _replay: Option<&str>) {
-    report.notes.push("C13: no harness yet".to_owned());
+    report.notes.push(format!("probe: {:?}", darklua_core::verif_hooks::write_string(b"")));
 }
